@@ -121,7 +121,12 @@ func (H) Gen(p string, seed uint64, tier string) *hx.Case {
 				ci := r.Range(36, len(classHint)-1)
 				capGuess := (1<<20 - 48) / (classHint[ci] + 24)
 				pages := r.Range(15, 22)
-				add(Op{Op: "burst", Size: classHint[ci] - r.Intn(3), N: capGuess*pages + r.Intn(capGuess), Frac: 0.8 + 0.17*r.Float(), Seed: r.U64()})
+				sz := classHint[ci] - r.Intn(3)
+				add(Op{Op: "burst", Size: sz, N: capGuess*pages + r.Intn(capGuess), Frac: 0.8 + 0.17*r.Float(), Seed: r.U64()})
+				if r.Chance(0.6) {
+					// the last free-list operations before the pass are allocations served from the free list
+					add(Op{Op: "refill", Size: sz, N: r.Range(1, 40)})
+				}
 			}
 			add(Op{Op: "defrag"})
 		} else if r.Chance(0.15) {
@@ -467,7 +472,7 @@ func (r *run) getStop() bool { return r.stop || r.bad }
 
 func isBarrier(op string) bool {
 	switch op {
-	case "barrier", "burst", "defrag", "handover":
+	case "barrier", "burst", "defrag", "handover", "refill":
 		return true
 	}
 	return false
@@ -513,6 +518,13 @@ func (r *run) barrier(o *Op) {
 		}
 		r.out.Probe("fragmentation_burst", 1)
 		r.quiescent(when)
+	case "refill":
+		for i := 0; i < o.N && !r.bad; i++ {
+			if x := r.malloc(0, o.Size, when); x != nil {
+				r.slots[0] = append(r.slots[0], x)
+			}
+		}
+		r.out.Probe("refill_from_free_list", 1)
 	case "defrag":
 		r.defrag(when)
 	}
